@@ -65,6 +65,9 @@ func c05Log(dir, file string, rec map[string]any) {
 // client: after its stopAfter-th answer (0: before reading anything) the client breaks down: how =
 // unknown (a response for a test name that was never requested, then exit), dup (the last response
 // once more, then exit), garbage (bytes that are no response, then exit), exit0 / exit3.
+// how = readexit0 / readexit3 / readkill: the client dies (exit 0, exit 3, SIGKILL) right after it has
+// READ its stopAfter-th request (0: at start-up, before reading anything), answering nothing more —
+// while the runner still has requests to hand out, which it then writes to a client that is gone.
 func c05Peer(args []string) int {
 	if len(args) < 2 {
 		return 2
@@ -169,20 +172,26 @@ func c05Peer(args []string) int {
 				}
 			case "garbage":
 				os.Stdout.Write([]byte{0, 0, 0, 3, 0xff, 0xff, 0xff})
-			case "exit3":
+			case "exit3", "readexit3":
 				os.Exit(3)
+			case "readkill":
+				syscall.Kill(os.Getpid(), syscall.SIGKILL)
+				time.Sleep(time.Hour)
 			}
 			os.Exit(0)
 		}
+		diesReading := strings.HasPrefix(how, "read")
 		if stopAfter == 0 {
 			mu.Lock()
 			breakdown()
 		}
+		nRead := 0
 		for {
 			var req conformancev1.ClientCompatRequest
 			if err := internal.ReadDelimitedMessage(in, &req, "runner", time.Hour, 16<<20); err != nil {
 				break
 			}
+			nRead++
 			var names []string
 			for _, h := range req.RequestHeaders {
 				if strings.EqualFold(h.Name, "x-test-case-name") {
@@ -193,7 +202,13 @@ func c05Peer(args []string) int {
 			c05Log(dir, file, map[string]any{"ev": "req", "name": req.TestName, "host": req.Host, "port": int(req.Port), "hasCert": len(req.ServerTlsCert) > 0,
 				"hasClientCreds": req.ClientTlsCreds != nil, "proto": int(req.Protocol), "ver": int(req.HttpVersion), "hdrName": names,
 				"codec": int(req.Codec), "comp": int(req.Compression)})
+			if diesReading && nRead == stopAfter {
+				breakdown()
+			}
 			mu.Unlock()
+			if diesReading {
+				continue // answers nothing: it only takes requests until it dies
+			}
 			wg.Add(1)
 			go func(name string) {
 				defer wg.Done()
@@ -251,6 +266,9 @@ type c05In struct {
 	ClientStopHow   string `json:"clientStopHow,omitempty"`
 	ClientStopAfter int    `json:"clientStopAfter,omitempty"`
 	Verbose         bool   `json:"verbose,omitempty"` // -v: server instances in sorted order
+	// TimeoutS: the watchdog of this scenario (0: 90 s) — Run not having returned by then is the
+	// observation "the run did not terminate"; the scenario's peer processes are then killed
+	TimeoutS int `json:"timeoutS,omitempty"`
 }
 type c05Out struct {
 	Perms    []cc.VerifC05Perm `json:"perms"`
@@ -285,6 +303,21 @@ func c05AliveServers(dir string) []int {
 		}
 	}
 	return alive
+}
+
+// c05KillScenario kills every peer process (client, servers) of the scenario with this log directory.
+func c05KillScenario(dir string) {
+	entries, _ := os.ReadDir("/proc")
+	for _, e := range entries {
+		pid, err := strconv.Atoi(e.Name())
+		if err != nil || pid == os.Getpid() {
+			continue
+		}
+		cmdline, err := os.ReadFile(fmt.Sprintf("/proc/%d/cmdline", pid))
+		if err == nil && bytes.Contains(cmdline, []byte(dir)) && bytes.Contains(cmdline, []byte("c05peer")) {
+			syscall.Kill(pid, syscall.SIGKILL)
+		}
+	}
 }
 
 var c05Seq atomic.Int64
@@ -394,20 +427,29 @@ func c05Run(c *gen.Ctx, in c05In) c05Out {
 	}
 	out.Perms = perms
 	t0 := time.Now()
-	done := make(chan struct{})
+	done := make(chan error, 1)
 	var runErr error
+	timeout := in.TimeoutS
+	if timeout <= 0 || timeout > 600 {
+		timeout = 90
+	}
 	go func() {
-		defer close(done)
-		_, runErr = cc.Run(flags, &c02Printer{}, &c02Printer{})
+		_, err := cc.Run(flags, &c02Printer{}, &c02Printer{})
+		done <- err
 	}()
+	// the watchdog counts ticks this process has received, not wall-clock time (see cc.VerifDog)
+	dog := cc.VerifNewDog(timeout)
+	defer dog.Stop()
 	select {
-	case <-done:
+	case runErr = <-done:
 		out.Returned = true
 		// "every started server is stopped, and the run terminates": at the very moment Run returns,
 		// none of the server processes it started may still be running
 		out.AliveAtReturn = c05AliveServers(dir)
-	case <-time.After(90 * time.Second):
+	case <-dog.C:
 		out.AliveAtReturn = []int{}
+		// Run hangs: its goroutines are lost, its peers must not stay behind
+		c05KillScenario(dir)
 	}
 	out.ElapsedS = time.Since(t0).Seconds()
 	if len(out.AliveAtReturn) > 0 {
@@ -455,6 +497,11 @@ func c05FateScenarios(c *gen.Ctx) []any {
 	}
 	var ins []any
 	add := func(in c05In) {
+		if in.TimeoutS == 0 {
+			// far below the time-out of the whole harness, far above what the slowest legitimate course
+			// takes (a client that died silently is noticed by the 20 s response time-out)
+			in.TimeoutS = 45
+		}
 		ins = append(ins, in)
 		c.E.Count("fate:" + in.Behaviour + ":" + in.ClientStopHow)
 	}
@@ -475,6 +522,31 @@ func c05FateScenarios(c *gen.Ctx) []any {
 	vb := stop(true, 2, []int{300, 2000}, "unknown", r.Range(1, 2))
 	vb.Verbose = true
 	add(vb)
+	// a client process that is GONE while the runner still has requests to hand out: it exits at
+	// start-up, or after it has answered a whole batch (so that the next batch, started when the slot
+	// is free again, writes to a dead process), or it dies (exit 0 / 3, SIGKILL) right after it has
+	// read its k-th request, answering nothing.  Every write to the dead process must come back (as
+	// an error), the remaining permutations are recorded as not run, every started server is stopped
+	// and Run returns.  A single slot (requests go out one after the other) and several (concurrent
+	// senders).  The watchdog is far below the time-out of the whole harness.  (A client that dies
+	// silently while nothing more is written to it is only noticed when the 20 s response time-out
+	// fires: os/exec's Wait does not return while its stdin copier sits in a read of the runner's
+	// pipe.  That is slow, not wrong; the scenarios here make the runner write again.)
+	gone := func(five bool, ms int, delays []int, how string, after int) c05In {
+		in := stop(five, ms, delays, how, after)
+		in.TimeoutS = 30
+		return in
+	}
+	add(gone(false, 2, []int{300, 1000}, "exit0", 0))
+	add(gone(true, 3, []int{0, 400}, "exit3", 0))
+	add(gone(false, 1, []int{300}, gen.Pick(r, []string{"exit0", "exit3"}), 3))
+	add(gone(true, 2, []int{200, 900}, "exit3", 6))
+	if c.Thorough() {
+		// whether a write meets the dead process here is a race: if none does, the scenario takes 20 s
+		g := gone(false, 2, []int{300, 1200}, gen.Pick(r, []string{"readkill", "readexit3", "readexit0"}), 2)
+		g.TimeoutS = 70
+		add(g)
+	}
 	// servers that read their input to its end before they answer, through the whole Run
 	eof := base(true, 2)
 	eof.Behaviour, eof.ExitDelayMs = "eof", 20
@@ -492,11 +564,15 @@ func c05FateScenarios(c *gen.Ctx) []any {
 	for i := 0; i < n; i++ {
 		ms := r.Range(1, 4)
 		in := stop(r.Bool(), ms, [][]int{{300, 2000}, {2000, 300}, {100, 900, 1800}, {0, 1500}, {700}}[r.Intn(5)],
-			gen.Pick(r, []string{"unknown", "unknown", "garbage", "dup", "exit0", "exit3"}), r.Range(0, 10))
+			gen.Pick(r, []string{"unknown", "unknown", "garbage", "dup", "exit0", "exit3", "readexit0", "readexit3", "readkill"}), r.Range(0, 10))
 		in.LatencyMs = gen.Pick(r, []int{0, 0, 2, 10})
+		in.TimeoutS = 70
 		in.Verbose = r.Bool()
 		if in.ClientStopHow == "dup" && in.ClientStopAfter == 0 {
 			in.ClientStopAfter = 1
+		}
+		if strings.HasPrefix(in.ClientStopHow, "read") {
+			in.ClientStopAfter %= 5 // it must die, not sit on its requests until the response time-out
 		}
 		if r.Chance(1, 3) {
 			in.Behaviour = "eof"
@@ -623,15 +699,25 @@ func runC05(c *gen.Ctx) error {
 	}
 	// process fates (op "fate"): the handshake with servers that read their input to its end, and a
 	// client that breaks down mid-run while several batches are in flight whose servers need different
-	// times to stop — when Run returns, no server it started may still be running
-	c.DoParallel("handshake", c05HandshakeScenarios(c), 4)
-	fates := c05FateScenarios(c)
-	workers := 4
-	c.DoParallel("fate", fates, workers)
-	c.DoParallel("run", ins, 4)
+	// times to stop — when Run returns, no server it started may still be running.
 	// a real server process that ignores SIGTERM must still be stopped (killed) before the batch
-	// returns its --max-servers slot
-	c.DoParallel("osserver", oscmdServerScenarios(c)[2:], 2)
-	c.DoParallel("fill", c05FillScenarios(), 4)
+	// returns its --max-servers slot (osserver).
+	// All operations run side by side (the scenarios that may end in a watchdog first): what a hang
+	// in the code under test costs is one watchdog, not one per group.
+	var opsOf []string
+	var all []any
+	group := func(op string, xs []any) {
+		for _, x := range xs {
+			opsOf = append(opsOf, op)
+			all = append(all, x)
+		}
+	}
+	group("fate", c05FateScenarios(c))
+	group("shared", c05SharedScenarios(c))
+	group("osserver", oscmdServerScenarios(c)[2:])
+	group("handshake", c05HandshakeScenarios(c))
+	group("run", ins)
+	group("fill", c05FillScenarios())
+	c.DoParallelOps(opsOf, all, 8)
 	return nil
 }
